@@ -808,8 +808,22 @@ class _ExecutorManagerThread(threading.Thread):
                         # must not kill it, or the pending jobs would never be
                         # resolved. Log it and replace the worker.
                         mp.util.info(f"{e}")
-                    with executor._processes_management_lock:
-                        executor._adjust_process_count()
+                    try:
+                        with executor._processes_management_lock:
+                            executor._adjust_process_count()
+                    except BaseException as e:
+                        # The worker cannot be replaced: the jobs it would
+                        # have run may never complete. Flag the executor as
+                        # broken, so that they fail instead of hanging,
+                        # before this thread ends with the error.
+                        executor = None
+                        bpe = BrokenProcessPool(
+                            "A worker stopped while some jobs were given to "
+                            "the executor and it could not be replaced."
+                        )
+                        bpe.__cause__ = e
+                        self.terminate_broken(bpe)
+                        raise
                     executor = None
         else:
             # Received a _ResultItem so mark the future as completed.
